@@ -83,8 +83,8 @@ pub fn build_schema(sort_ty: SortTy) -> (Schema, Fields) {
     (schema, Fields { uid, key, body, tag, tw, sortv, js, sort_ty })
 }
 
-pub const SORT_U64: [u64; 6] = [0, 1, 7, 7, 1 << 40, u64::MAX];
-pub const SORT_I64: [i64; 6] = [i64::MIN, -5, 0, 0, 9, i64::MAX];
+pub const SORT_U64: [u64; 6] = [0, 1, 7, 7, u64::MAX - 1, u64::MAX];
+pub const SORT_I64: [i64; 6] = [i64::MIN, -5, 0, 0, i64::MAX - 1, i64::MAX];
 pub const SORT_F64: [f64; 6] = [f64::NEG_INFINITY, -1.5, -0.0, 0.0, 2.25, f64::INFINITY];
 pub const SORT_DATE: [i64; 6] = [-86_400, 0, 1, 1, 1_700_000_000, 4_000_000_000]; // seconds
 pub const SORT_STR: [&str; 6] = ["", "a", "ab", "ab", "b", "zz"];
